@@ -72,6 +72,15 @@ CLAIMED = {
              "'same multiset and no later row precedes an earlier one', slices with symbolic LIMIT/OFFSET against position bounds in the "
              "ordered sequence. SUM/AVG/GROUP_CONCAT values are not claimed.",
         ref="DESIGN.md section 3 C08"),
+    "C13": dict(
+        technique="symbolic execution of read APIs (CrossHair + z3) with a before/after store snapshot as frame condition; serializer purity only shape-symbolic",
+        text="Bounded symbolic model checking of a frame condition: for a Graph and a Dataset (default_union on/off, IRI- and bnode-named "
+             "graphs, an existing empty graph) holding n=2 symbolic triples, the store's per-graph content and set of graphs is "
+             "snapshotted through the store interface, one read is performed twice (C04/C08 catalogue queries incl. CONSTRUCT, path "
+             "evaluation, iteration, len, membership, 8 slice shapes, restricted triples/quads, accessors, operators + - * ^, read calls "
+             "naming a graph by a foreign Graph object) and the snapshot must be unchanged and both answers equal. Serializers, "
+             "isomorphic, canonicalisation, graph_diff and DESCRIBE are covered only by a shape-symbolic supplement (512 membership cases).",
+        ref="DESIGN.md section 3 C13"),
 }
 
 NA = {
@@ -81,7 +90,6 @@ NA = {
     "C07": "check not built yet in this commit (planned: engines K + R, n3 text forms only)",
     "C09": "check not built yet in this commit (planned: engines K + R)",
     "C12": "every parser keys its blank-node label map on text extracted by regex/SAX/JSON; a symbolic label is realised by that extraction (probe: no verdict in 300 s), what remains is a boolean 'same label or not'",
-    "C13": "check not built yet in this commit (planned: engine S)",
     "C14": "canonicalisation hashes n3() strings with SHA-256 (C code) before its first structural branch, realising every symbolic input; the interesting inputs are boolean structures",
     "C15": "check not built yet in this commit (planned: engine S)",
     "C16": "result codecs are json/expat/csv (C) and a pyparsing grammar over term contents that cannot be symbolic; remaining symbolic inputs are bound/unbound booleans",
